@@ -488,6 +488,38 @@ def c11(v):
     v.cov["exhaustive"] = v.tier == "thorough"
 
 
+# --------------------------------------------------------------------------
+# (A) laws of the specification's own operators (SpecLaws.tla)
+# --------------------------------------------------------------------------
+def speclaws(v, invariants):
+    import pools
+    P = pools.Pools(v.seed, scale_of(v))
+    wd = vlib.workdir("%s_speclaws" % v.prop)
+    ts = [x for x in P.ts if -719162 <= x[0] <= 2932896][:70]
+    months = sorted(set(list(range(-40, 41)) + [12, 24, -12, 1200, -1200, 119987, -119987, 119988, pools.YM_MAX, -pools.YM_MAX]))
+    small = sorted(set([0, 1, 2, 3, 7, 9999, 10000, 10001, 12345, 40000, 65535, 65536, 86400, 99999999, 100000000, 123456789,
+                        1999999999, 2000000000, 8191, 8192, 8193] + [P.rnd.randint(0, 2 * 10**9) for _ in range(8)]))
+    mod = vlib.mc_module(wd, "MCSpecLaws", "SpecLaws", {
+        "MCTs": "{" + ",".join(tla_val(x) for x in ts) + "}",
+        "MCDt": "{" + ",".join(tla_val(x) for x in P.dt) + "}",
+        "MCTime": "{" + ",".join(tla_val(x) for x in P.times) + "}",
+        "MCYm": "{" + ",".join(tla_val(x) for x in P.ym) + "}",
+        "MCDate": "{" + ",".join(tla_val(x) for x in P.dates) + "}",
+        "MCMonths": "{" + ",".join(tla_val(x) for x in months) + "}",
+        "MCSmall": "{" + ",".join(tla_val(x) for x in small) + "}"})
+    cfg = os.path.join(wd, "MC.cfg")
+    with open(cfg, "w") as fh:
+        fh.write("SPECIFICATION Spec\nCONSTANTS TsPool <- MCTs\n DtPool <- MCDt\n TimePool <- MCTime\n YmPool <- MCYm\n DatePool <- MCDate\n"
+                 " MonthOffsets <- MCMonths\n SmallInts <- MCSmall\nINVARIANTS %s\nCHECK_DEADLOCK FALSE\n" % " ".join(invariants))
+    res = vlib.tlc(mod, cfg, workers=4, xmx="4g", timeout=1800, cwd=wd)
+    if res.errors:
+        m_ = res.out.find("Error:")
+        raise ToolError("SpecLaws: the specification violates a law it should have:\n" + res.out[m_:m_ + 2500])
+    v.add_tlc(res, "tlc -config MC.cfg MCSpecLaws.tla (SpecLaws: %s)" % " ".join(invariants))
+    v.notes.append("SpecLaws %s: %d states" % (" ".join(invariants), res.distinct))
+    shutil.rmtree(wd, ignore_errors=True)
+
+
 # ==========================================================================
 # pools-based properties
 # ==========================================================================
@@ -524,6 +556,7 @@ def c08(v):
                      "boundary pools (range ends, +-1 unit, one unit past the range, epoch, i32 extremes, dyadic/decimal day "
                      "fractions) and seeded random values; judged by Ops.tla's exact mixed-radix arithmetic (succeeds iff the exact "
                      "result is in range; fractional days = nearest microsecond via big integers).")
+    speclaws(v, ["LinearLaws", "IntervalLaws"])
     P = pools.Pools(v.seed, scale_of(v) * 2)
     plan = pools.plan_for(LINEAR_OPS, P, cap=4000 * scale_of(v))
     eventtrace(v, "linear", plan, {"result", "range", "panic"})
@@ -549,6 +582,7 @@ def c12(v):
                      "+-(1d-1us), +-1d, whole days, range limits, random) through Time +/- IntervalDT, judged by Ops.tla "
                      "(mixed-radix sum with the day digit dropped = modulo 24h); Time - Time, Interval -> Time, Time vs "
                      "Interval comparisons over pools. distinct_nontrivial = distinct (op, args).")
+    speclaws(v, ["WrapLaws"])
     P = pools.Pools(v.seed, scale_of(v))
     ivs = dt_boundary(P)
     step = 7 if v.tier == "quick" else 1
@@ -575,6 +609,7 @@ def c13(v):
                      "accessors, order vs k-1; day-time intervals at powers of ten, unit boundaries +-1us, seconds within +-2 days, "
                      "limits, random: try_from_usecs, extract, try_from_dhms(fields), negation, accessors, order; constructor "
                      "validity grids incl. u32 extremes. All judged by Ops.tla (sign-magnitude decomposition in mixed radix).")
+    speclaws(v, ["YmLaws", "IntervalLaws"])
     P = pools.Pools(v.seed, scale_of(v))
     YM = pools.YM_MAX
     if v.tier == "quick":
@@ -654,6 +689,7 @@ def c14(v):
                      "(mantissa, exponent) and judge the result with big-integer arithmetic: within relative 2^-51 of the real "
                      "product/quotient then truncated toward zero, exact when the real value is an integer below 2^53, error kind by "
                      "class (NaN / infinite / divide-by-zero / out of range).")
+    speclaws(v, ["BigLaws"])
     P = pools.Pools(v.seed, scale_of(v))
     plan = pools.plan_for(["YM.mul_f64", "YM.div_f64", "DT.mul_f64", "DT.div_f64", "T.mul_f64", "T.div_f64"], P,
                           cap=100000, heavy_cap=2600 * scale_of(v))
@@ -698,6 +734,7 @@ def c09(v):
                      "(time kept) and OracleDate, add and subtract; last_day_of_month on all three types; DaySweep.tla checks "
                      "last_day_of_month on every day of the window.  Judged by Ops.tla: floor division on 12*year+month-1+k, Err iff the "
                      "target month lacks the day or the year leaves 1..9999.")
+    speclaws(v, ["MonthLaws"])
     P = pools.Pools(v.seed, scale_of(v))
     days = month_edge_days(v)
     if v.tier == "thorough":
